@@ -208,6 +208,8 @@ class SysFs(EngineBase):
                     "%d-%d\n" % (c - c % 2, c - c % 2 + 1)
         world = {"files": files, "cpuinfo": "".join(cpuinfo),
                  "sysconf_fail": rng.choice([[], [], ["SC_NPROCESSORS_ONLN"]]),
+                 # configured-but-offline CPUs (sysconf CONF > ONLN)
+                 "ncpu_offline": rng.choice([0, 0, 1, 3]),
                  "stat_misc": {"intr": rng.randrange(0, 2 ** 40),
                                "ctxt": rng.randrange(0, 2 ** 40),
                                "softirq": rng.randrange(0, 2 ** 40)},
